@@ -255,6 +255,47 @@ def run(spec, out):
     out.count("enumerated", n_enum)
     out.sample({"kind": "enumerated", "example": "".join(prefixes[part % len(prefixes)]) + "(a", "bound": L})
 
+    # ---- grammar-generated well-formed expressions with deeper nesting than the enumeration reaches
+    names = [chr(c) for c in range(ord("a"), ord("z") + 1)]
+
+    def g_item(depth, ctx):
+        r = rng.random()
+        if depth >= 3 or r < 0.4:
+            if rng.random() < 0.2:
+                return [rng.choice(["1", "2", "3"])]
+            ctx["n"] += 1
+            return [names[ctx["n"] % 26] + ("" if ctx["n"] < 26 else str(ctx["n"] // 26))]
+        if r < 0.65:
+            return ["("] + g_expr(depth + 1, ctx) + [")"]
+        if r < 0.78 and not ctx["br"]:
+            ctx["br"] = True
+            t = ["["] + g_expr(depth + 1, ctx) + ["]"]
+            ctx["br"] = False
+            return t
+        if r < 0.9:
+            return g_item(depth + 1, ctx) + ["..."]
+        return ["("] + g_item(depth + 1, ctx) + [" ", "+", " "] + g_item(depth + 1, ctx) + [")"]
+
+    def g_expr(depth, ctx):
+        toks = []
+        for k in range(rng.randint(1, 3)):
+            if k:
+                toks.append(" ")
+            toks += g_item(depth, ctx)
+        return toks
+
+    for i in range(max(1, spec["nrandom"] * 3 // 8)):
+        ctx = {"n": rng.randint(0, 20), "br": False}
+        toks = g_expr(0, ctx)
+        for _ in range(rng.choice([0, 0, 1, 2])):
+            toks += [",", " "] + g_expr(0, ctx)
+        if rng.random() < 0.5:
+            toks += [" ", "->", " "] + g_expr(0, ctx)
+        check_string("".join(toks), toks, True)
+        out.count("grammar_strings")
+        if i < 1:
+            out.sample({"kind": "grammar", "string": "".join(toks)})
+
     # ---- random longer sequences and hostile characters
     for i in range(spec["nrandom"]):
         mode = rng.random()
@@ -279,7 +320,7 @@ def finalize(agg, tier, seed):
     cov = {"exhaustive": c.get("enumerated", 0) == expected, "enumeration_bound_tokens": L, "enumerated_strings": int(c.get("enumerated", 0)), "expected_enumerated": expected}
     if c.get("enumerated", 0) != expected:
         agg.inconclusive.append(f"enumeration incomplete: {c.get('enumerated', 0)} of {expected}")
-    for k in ("accepted", "rejected_located", "reprint_checked", "spacing_variants", "public_calls"):
+    for k in ("accepted", "rejected_located", "reprint_checked", "spacing_variants", "public_calls", "grammar_strings"):
         if c.get(k, 0) == 0:
             agg.inconclusive.append(f"monitor counter {k} is zero")
     return cov
